@@ -137,6 +137,26 @@ def run(db: DB, rep: Report) -> None:
               "statement (states %s) or the translator no longer adds it" % sorted(states),
               decided=b1_decided)
 
+    # ---- P4: a name leaf is a name ---------------------------------------------------
+    # The printer writes the name of a variable / binder / method / keyword leaf verbatim.  The text
+    # denotes that leaf only if the name is an identifier: a name assembled with operator text in it
+    # ("M * N") prints as an expression of several leaves while the tree holds one.
+    rep.rule("P4", "every literal piece built into the name of a variable, binder, method, keyword or "
+             "callee leaf consists of identifier characters", 150)
+    import re as _re
+    for (nid, fld), rec in sorted(hm.names.items(), key=lambda kv: (db.loc(kv[1]["node"]), kv[0][1])):
+        if rec["role"] not in ("reader", "binder", "method", "keyword", "callee"):
+            continue
+        badp = sorted({p_ for t_ in rec["tmpls"] for p_ in t_
+                       if isinstance(p_, str) and p_ != "HOLE" and not _re.fullmatch(r"[A-Za-z0-9_.]*", p_)})
+        fi = rec["func"]
+        rep.check("P4", not badp, db.loc(rec["node"]), fi.short if fi else "?",
+                  "name:%s.%s@%s" % (rec["cls"], fld, norm(rec["node"])[:60]),
+                  "%s.%s of %s is assembled from identifier pieces" % (rec["cls"], fld, norm(rec["node"])[:50]),
+                  "the %s of %s can contain the text %s: the printed text denotes an expression of "
+                  "several leaves where the tree holds a single %s named by the whole string" %
+                  (fld, norm(rec["node"])[:60], badp, rec["cls"]))
+
     # ---- P3m -------------------------------------------------------------------------
     rep.rule("P3m", "TransUtils.sub_hifiber has the shape the substitution model assumes", 1)
     sh_ = db.func(next(iter(NATIVE)))
@@ -192,6 +212,9 @@ def mutants(db: DB):
     eq, pt, col, ca = ("teaal/trans/equation.py", "teaal/trans/partitioner.py", "teaal/trans/collector.py",
                        "teaal/trans/coord_access.py")
     return [
+        M("flattened output extent passed as one joined name (C09-u3)", "teaal/trans/header.py",
+          "                extent: Expression = EVar(extents[0])\n                for src_root in extents[1:]:\n                    extent = EBinOp(extent, OMul(), EVar(src_root))\n                shape.append(extent)",
+          "                shape.append(\" * \".join(extents))", "P4"),
         M("revert F1 fix (no brackets around substituted step)", pt,
           "            if isinstance(step, EBinOp):\n                sub_step = EParens(step)\n", "", "P3"),
         M("nway_shape loses EParens", pt, "parens = EParens(EBinOp(EVar(part_rank), OSub(), EInt(1)))",
